@@ -188,3 +188,19 @@ Proof. exact C05Order.mark_first_is_unsound. Qed.
 Print Assumptions C05_sound_under_interleaved_resets.
 Print Assumptions C05_step_effects_exact.
 Print Assumptions C05_no_late_store.
+
+(* slice-to-slice copies are steps of the same histories (SCopy: the accessor derived from one region,
+   copied with copy_to_volatile_slice into a slice of any region): the DESTINATION's pages are marked *)
+Example C05_copy_nonvacuous :
+  let r0 := {| r_start := 0; r_size := 32; r_ps := 8; r_tracked := true; r_dirty := [false; false; false; false] |} in
+  let r1 := {| r_start := 4096; r_size := 24; r_ps := 4; r_tracked := true; r_dirty := repeat false 6 |} in
+  wf [r0; r1] /\
+  (let '(rs', out) := run_step 0 [r0; r1] (SCopy 0 [DSub 3 10; DGetArr 2 2 3] 1 6 15) in
+   o_ok out = true /\ o_count out = 6 /\
+   o_effs out = [{| e_r := 1%nat; e_woff := 6; e_wn := 6; e_moff := 6; e_mlen := 6 |}] /\
+   map r_dirty rs' = [[false; false; false; false]; [false; true; true; false; false; false]]).
+Proof.
+  cbv zeta. split.
+  - constructor; [|constructor; [|constructor]]; unfold region_ok; cbn; (split; [lia|]); (split; [rewrite W64_val; lia|reflexivity]).
+  - vm_compute. repeat split.
+Qed.
